@@ -369,6 +369,7 @@ int main(int argc, char **argv)
     }
     evlog = calloc(LOGCAP, sizeof(ev_t));
     signal(SIGALRM, on_alarm);
+    alarm(watchdog);
     qthread_initialize();
     fdzero = open("/dev/zero", O_RDONLY);
     for (int i = 0; i < MAXG; i++) { qthread_empty(&gate[i]); sgate[i] = SYNCVAR_EMPTY_INITIALIZER; }
@@ -380,7 +381,6 @@ int main(int argc, char **argv)
         for (unsigned j = 0; j + 1 < ns; j++) printf(" %u:%u", (unsigned)qlib->shepherds[i].sorted_sheplist[j], qlib->shepherds[i].shep_dists[qlib->shepherds[i].sorted_sheplist[j]]);
         printf("\n");
     }
-    alarm(watchdog);
     __sync_synchronize();
     logging = 1;
     T[0].tag = 0;
@@ -393,7 +393,7 @@ int main(int argc, char **argv)
         LOG('r', 0, sh, pw, 999, 0, 0);
     }
     /* let the last descriptors be released by their workers before the log is cut */
-    for (int i = 0; i < 20; i++) { uint64_t sh, pw; LOG('p', 0, 'y', 0, 1000 + i, 0, 0); qthread_yield(); where(&sh, &pw); LOG('r', 0, sh, pw, 1000 + i, 0, 0); usleep(200); }
+    usleep(3000);    /* no yield-spinning here: the main task stays on worker 0 */
     logging = 0;
     __sync_synchronize();
     alarm(0);
